@@ -467,16 +467,20 @@ func (g *pgen) repeat(depth, nvars, draws int, inCustom bool) *Stmt {
 	if r.chance(70) {
 		switch {
 		case pf.Fail > 0 && r.chance(50):
-			chk = &Stmt{Op: "if", C: &Cond{Op: "lt", A: cconst(zv(int64(3 + r.intn(12)))), B: cvar(st)},
+			chk = &Stmt{Op: "if", C: &Cond{Op: "lt", A: cconst(zv(int64(r.intn(15)))), B: cvar(st)},
 				A: &Stmt{Op: "fail", Kind: "fatal", Variant: "fatalf", Id: g.id(), Msg: g.msg(), Next: retUnit()}, B: retUnit()}
 		case pf.NonFatal > 0 && r.chance(50):
-			chk = &Stmt{Op: "if", C: &Cond{Op: "lt", A: cconst(zv(int64(3 + r.intn(12)))), B: cvar(st)},
+			chk = &Stmt{Op: "if", C: &Cond{Op: "lt", A: cconst(zv(int64(r.intn(15)))), B: cvar(st)},
 				A: &Stmt{Op: "fail", Kind: "error", Variant: "errorf", Id: g.id(), Msg: g.msg(), Next: retUnit()}, B: retUnit()}
+		case pf.Skip > 0 && r.chance(25):
+			// the invariant itself skips the test case on a state condition
+			chk = &Stmt{Op: "if", C: &Cond{Op: "lt", A: cconst(zv(int64(1 + r.intn(8)))), B: cvar(st)},
+				A: &Stmt{Op: "skip", Variant: "skip", Msg: 4}, B: retUnit()}
 		default:
 			chk = &Stmt{Op: "log", Msg: 9, Next: retUnit()}
 		}
 	}
-	return &Stmt{Op: "repeat", Id: g.id(), E: cconst(zv(int64(r.intn(3)))), A: chk, Acts: acts, Next: g.body(depth, nvars+1, draws, inCustom)}
+	return &Stmt{Op: "repeat", Id: g.id(), E: cconst(zv(int64(r.intn(4)))), A: chk, Acts: acts, Next: g.body(depth, nvars+1, draws, inCustom)}
 }
 
 func GenProgram(r *Rng, pf Profile) *Program {
